@@ -1038,6 +1038,20 @@ def leaf_names(chk, F):
             return None
         names = [t["callee"]["path"] for _, t in g.calls() if "callee" in t]
         return g.path if any(n.endswith("text_query::TokenIterator::<'a>::new") or n.endswith("TokenIterator::new") for n in names) else None
+    # names are written in double quotes by write_name; the lexer's `"` arm reads `\<c>` as the character <c> itself, whatever it
+    # is (identity escapes: there is no `\n` inside double quotes).  So the only escapes the writer may use are a backslash followed
+    # by the very character it stands for; a fixed escape letter (`\n`, `\t`) reads back as that letter.
+    wn = [f for f in F.by_crate[CORE] if f.path == "ast::expr::write_name"]
+    if len(wn) == 1:
+        import re as _re
+        lits = [n["lit"]["v"] for n in hir_walk(F.hir_of(wn[0])["body"]) if n.get("k") == "Lit" and n["lit"].get("lit") == "str"]
+        fixed = sorted({v for v in lits if _re.fullmatch(r"\\[A-Za-z0-9]", v)})
+        chk.decide(not fixed, "leaf-names", "rink_core::ast::expr::write_name", "name-escapes-are-identity-escapes", wn[0].where(),
+                   "inside double quotes the writer only puts a backslash in front of the character itself",
+                   "write_name writes the fixed escape(s) %s inside double quotes; the lexer's `\"` arm has no such escapes and reads `\\t` as the letter t: "
+                   "the name `ton<TAB>US` prints as \"ton\\tUS\" and reads back as `tontUS`" % fixed)
+    else:
+        raise AnchorLost("ast::expr::write_name not found")
     for a in ms[0]["arms"]:
         p = H.pat_str(a["pat"])
         if p.startswith("Expr::Unit"):
